@@ -3,19 +3,22 @@
 // C11 contracts for package config (comment-only; read by /verif/vc).
 package config
 
-// DTLS encodes newer versions as numerically smaller Minor bytes (1.2 = fe fd, 1.3 = fe fc).
-// A range [minVersion, maxVersion] therefore contains v iff maxVersion.Minor <= v.Minor <= minVersion.Minor.
+// DTLS versions have the major byte 254 and encode newer versions as numerically smaller minor bytes
+// (RFC 6347 4.1: 1.2 = fe fd, RFC 9147 5.3: 1.3 = fe fc). For a local range [minVersion, maxVersion] of
+// DTLS versions (dtlsRange) a version v is inside the range iff it is a DTLS version and
+// maxVersion.Minor <= v.Minor <= minVersion.Minor. An entry with another major byte is never in range.
 
-//@ define inRange(v) (v.Minor <= minVersion.Minor && v.Minor >= maxVersion.Minor)
+//@ define dtlsRange() (minVersion.Major == 254 && maxVersion.Major == 254)
+//@ define inRange(v) (v.Major == 254 && v.Minor <= minVersion.Minor && v.Minor >= maxVersion.Minor)
 
 //@ func versionAtLeast
 //@ inline
-//@ ensures def: result == (version.Minor <= minVersion.Minor)
+//@ ensures def: minVersion.Major == 254 ==> result == (version.Major == 254 && version.Minor <= minVersion.Minor)
 //@ end
 
 //@ func versionAtMost
 //@ inline
-//@ ensures def: result == (version.Minor >= maxVersion.Minor)
+//@ ensures def: maxVersion.Major == 254 ==> result == (version.Major == 254 && version.Minor >= maxVersion.Minor)
 //@ end
 
 // SelectVersion: remote is the peer's list in the peer's preference order. The result is the first
@@ -26,14 +29,19 @@ package config
 
 //@ func SelectVersion
 //@ ensures member: result1 ==> exists(0, len(remote), func(i int) bool { return remote[i].Major == result0.Major && remote[i].Minor == result0.Minor })
-//@ ensures in-local-range: result1 ==> inRange(result0)
-//@ ensures first-acceptable: result1 ==> exists(0, len(remote), func(i int) bool { return remote[i].Major == result0.Major && remote[i].Minor == result0.Minor &&
+//@ ensures in-local-range: result1 && dtlsRange() ==> inRange(result0)
+//@ ensures first-acceptable: result1 && dtlsRange() ==> exists(0, len(remote), func(i int) bool { return remote[i].Major == result0.Major && remote[i].Minor == result0.Minor &&
 //@    forall(0, i, func(k int) bool { return !inRange(remote[k]) }) })
-//@ ensures highest-common: result1 && newestFirst(remote) ==> forall(0, len(remote), func(i int) bool { return inRange(remote[i]) ==> result0.Minor <= remote[i].Minor })
-//@ ensures fails-iff-disjoint: !result1 ==> forall(0, len(remote), func(i int) bool { return !inRange(remote[i]) })
+//@ ensures highest-common: result1 && dtlsRange() && newestFirst(remote) ==> forall(0, len(remote), func(i int) bool { return inRange(remote[i]) ==> result0.Minor <= remote[i].Minor })
+//@ ensures fails-iff-disjoint: !result1 && dtlsRange() ==> forall(0, len(remote), func(i int) bool { return !inRange(remote[i]) })
 //@ ensures zero-on-failure: !result1 ==> result0.Major == 0 && result0.Minor == 0
 //@ ensures input-kept: forall(0, len(remote), func(i int) bool { return remote[i].Minor == old(remote[i].Minor) && remote[i].Major == old(remote[i].Major) })
-//@ loop #1: scanned: forall(0, idx, func(i int) bool { return !inRange(remote[i]) })
+//@ loop #1: scanned: dtlsRange() ==> forall(0, idx, func(i int) bool { return !inRange(remote[i]) })
+// A selected version is a DTLS version the local side supports: DTLS versions have Major 254 (RFC 6347 4.1:
+// {254, 253}, RFC 9147 5.3: {254, 252}); an entry of the peer's list with another major byte is not a
+// version inside the local range whatever its minor byte is. (Refuted before fix 3f69c6d: the comparison
+// looked at the minor byte only.)
+//@ ensures selected-is-a-dtls-version: result1 && minVersion.Major == 254 && maxVersion.Major == 254 ==> result0.Major == 254
 //@ end
 
 // Only DTLS 1.2 (fe fd) and DTLS 1.3 (fe fc) exist for this library.
@@ -52,16 +60,18 @@ package config
 
 //@ func SupportedVersionsRange
 //@ ensures at-most-two: len(result) <= 2
-//@ ensures supported-and-in-range: forall(0, len(result), func(k int) bool { return (is12(result[k]) || is13(result[k])) && inRange(result[k]) })
+//@ ensures supported-and-in-range: forall(0, len(result), func(k int) bool { return (is12(result[k]) || is13(result[k])) && (dtlsRange() ==> inRange(result[k])) })
+//@ ensures nothing-outside-a-dtls-range: !dtlsRange() ==> len(result) == 0
 //@ ensures newest-first: forall(0, len(result), func(i int) bool { return forall(i+1, len(result), func(j int) bool { return result[i].Minor < result[j].Minor }) })
-//@ ensures has-13: 252 <= minVersion.Minor && 252 >= maxVersion.Minor ==> len(result) >= 1 && is13(result[0])
-//@ ensures has-12: 253 <= minVersion.Minor && 253 >= maxVersion.Minor ==> exists(0, len(result), func(k int) bool { return is12(result[k]) })
+//@ ensures has-13: dtlsRange() && 252 <= minVersion.Minor && 252 >= maxVersion.Minor ==> len(result) >= 1 && is13(result[0])
+//@ ensures has-12: dtlsRange() && 253 <= minVersion.Minor && 253 >= maxVersion.Minor ==> exists(0, len(result), func(k int) bool { return is12(result[k]) })
 //@ loop #1: progress: len(out) <= idx && cap(out) == 2 && len(ordered) == 2
 //@ loop #1: ordered-kept: is13(ordered[0]) && is12(ordered[1])
-//@ loop #1: out-fresh: disjoint(out, ordered) && offsetOf(ordered) == 0
-//@ loop #1: supported-and-in-range: forall(0, len(out), func(k int) bool { return (is12(out[k]) || is13(out[k])) && inRange(out[k]) })
+//@ loop #1: out-fresh: disjoint(out, ordered) && offsetOf(ordered) == 0 && offsetOf(out) == 0
+//@ loop #1: supported-and-in-range: forall(0, len(out), func(k int) bool { return (is12(out[k]) || is13(out[k])) && (dtlsRange() ==> inRange(out[k])) })
+//@ loop #1: nothing-outside-a-dtls-range: !dtlsRange() ==> len(out) == 0
 //@ loop #1: only-13-so-far: idx <= 1 ==> forall(0, len(out), func(k int) bool { return is13(out[k]) })
 //@ loop #1: newest-first: forall(0, len(out), func(i int) bool { return forall(i+1, len(out), func(j int) bool { return out[i].Minor < out[j].Minor }) })
-//@ loop #1: has-13: idx >= 1 && 252 <= minVersion.Minor && 252 >= maxVersion.Minor ==> len(out) >= 1 && is13(out[0])
-//@ loop #1: has-12: idx >= 2 && 253 <= minVersion.Minor && 253 >= maxVersion.Minor ==> exists(0, len(out), func(k int) bool { return is12(out[k]) })
+//@ loop #1: has-13: dtlsRange() && idx >= 1 && 252 <= minVersion.Minor && 252 >= maxVersion.Minor ==> len(out) >= 1 && is13(out[0])
+//@ loop #1: has-12: dtlsRange() && idx >= 2 && 253 <= minVersion.Minor && 253 >= maxVersion.Minor ==> exists(0, len(out), func(k int) bool { return is12(out[k]) })
 //@ end
